@@ -184,6 +184,17 @@ func encodeOpaqueErrno(
 	return e.Error(), []string{e.Error()}, e.details
 }
 
+func decodeOpaqueErrno(
+	_ context.Context, msg string, _ []string, payload proto.Message,
+) error {
+	m, ok := payload.(*errorspb.ErrnoPayload)
+	if !ok {
+		// See the comment in decodeErrno.
+		return nil
+	}
+	return &OpaqueErrno{msg: msg, details: m}
+}
+
 func init() {
 	baseErr := goErr.New("")
 	RegisterLeafDecoder(GetTypeKey(baseErr), decodeErrorString)
@@ -211,4 +222,5 @@ func init() {
 	RegisterWrapperDecoder(pKey, decodeSyscallError)
 
 	RegisterLeafEncoder(GetTypeKey(&OpaqueErrno{}), encodeOpaqueErrno)
+	RegisterLeafDecoder(GetTypeKey(&OpaqueErrno{}), decodeOpaqueErrno)
 }
